@@ -391,3 +391,104 @@ func keysSorted(m map[string]bool) []string {
 	sort.Strings(ks)
 	return ks
 }
+
+// c08AllocFailureJob: the environment deviates - the cached reporter's Allocate* panics for one metric name (what
+// the Prometheus reporter does by default when a registration is refused) and the application recovers. Histories
+// of good and failing first uses on the root and on a subscope, passes, then the root's Close: Close returns,
+// everything recorded through metrics that could be created has been delivered and flushed before it does, and the
+// reporter is closed once. Run under the controlled scheduler: a lock left behind by a failed first use shows as a
+// deadlock with a history instead of a hung worker.
+func c08AllocFailureJob(tier string) *SeqJob {
+	alphabet := []string{"counter good", "counter bad", "gauge bad", "timer bad", "histogram bad", "sub counter bad", "sub counter good", "pass"}
+	depth := tierInt(tier, 4, 5)
+	exec := func(hist []int) (cl, det, key string, steps int) {
+		var icl, idet string
+		ccl, cdet := controlledCase(0, func() {
+			icl, idet = guard(func() (string, string) {
+				rec := &Recorder{NoPoints: true, PanicOnAlloc: "bad", CloseErr: errSentinel}
+				o := scopeOpts(rec, true, true)
+				root, closer := tally.NewRootScope(o, 0)
+				sub := root.Tagged(map[string]string{"k": "v"})
+				want := map[string]int64{}
+				try := func(f func()) (failed bool) {
+					defer func() {
+						if r := recover(); r != nil {
+							if _, ok := r.(ReporterPanic); !ok {
+								panic(r)
+							}
+							failed = true
+						}
+					}()
+					f()
+					return false
+				}
+				v := int64(1)
+				for _, op := range hist {
+					steps++
+					var failed, wantFail bool
+					switch alphabet[op] {
+					case "counter good":
+						failed = try(func() { root.Counter("good").Inc(v) })
+						want["good{}"] += v
+					case "sub counter good":
+						failed = try(func() { sub.Counter("good").Inc(v) })
+						want[`good{"k":"v"}`] += v
+					case "counter bad":
+						failed, wantFail = try(func() { root.Counter("bad").Inc(v) }), true
+					case "gauge bad":
+						failed, wantFail = try(func() { root.Gauge("bad").Update(1) }), true
+					case "timer bad":
+						failed, wantFail = try(func() { root.Timer("bad").Record(1) }), true
+					case "histogram bad":
+						failed, wantFail = try(func() { root.Histogram("bad", tally.ValueBuckets{1}).RecordValue(1) }), true
+					case "sub counter bad":
+						failed, wantFail = try(func() { sub.Counter("bad").Inc(v) }), true
+					case "pass":
+						tally.VerifReportOnce(root)
+					}
+					if failed != wantFail {
+						return "allocation-failure-not-passed-on", fmt.Sprintf("%v: step %q: panicked=%v", histLabels(alphabet, hist), alphabet[op], failed)
+					}
+					v *= 2
+				}
+				key = fmt.Sprint(hist) // (what a failed first use leaves behind is not in any model: no merging)
+				n := len(rec.Log)
+				err := closer.Close()
+				steps++
+				if err != errSentinel {
+					return "close-error-not-returned", fmt.Sprintf("%v: Close returned %v", histLabels(alphabet, hist), err)
+				}
+				got := sumCounters(rec.Log, 0, len(rec.Log))
+				for id, w := range want {
+					if got[id] != w {
+						return "not-delivered-before-close-returned", fmt.Sprintf("%v: counter %s: %d delivered when Close returned, %d recorded", histLabels(alphabet, hist), id, got[id], w)
+					}
+				}
+				flushAt, closeAt, lastDelivery, closes := -1, -1, -1, 0
+				for i, e := range rec.Log[n:] {
+					switch {
+					case e.Kind == "flush":
+						flushAt = i
+					case e.Kind == "close":
+						closeAt = i
+						closes++
+					case isDelivery(e.Kind):
+						lastDelivery = i
+					}
+				}
+				if flushAt < 0 || flushAt < lastDelivery || closes != 1 || closeAt < flushAt {
+					return "final-pass-flush-close-order", fmt.Sprintf("%v: in Close: last delivery at %d, flush at %d, %d reporter closes (last at %d)", histLabels(alphabet, hist), lastDelivery, flushAt, closes, closeAt)
+				}
+				return "", ""
+			})
+		})
+		if ccl != "" {
+			return ccl, fmt.Sprintf("%v (each first use of a metric named \"bad\" panics in the reporter's Allocate call and is recovered by the application), then Close: %s", histLabels(alphabet, hist), cdet), key, steps
+		}
+		return icl, idet, key, steps
+	}
+	j := &SeqJob{Property: "C08", Name: "failed-first-uses-then-close", Controlled: true, Shards: 2}
+	j.Run = func(ctx *SeqCtx) { bfs(ctx, alphabet, depth, exec) }
+	j.Replay = func(ops []string) (string, string) { c, d, _, _ := exec(opIndex(alphabet, ops)); return c, d }
+	return j
+}
